@@ -632,6 +632,19 @@ pub fn run_workload(sub: u64, only_leg: Option<&str>, acc: &mut Acc, ctx: &Ctx, 
         let full = ctx.run(&cwd, &ref_spec, 30);
         acc.evals += 1;
         digest = digest_out(digest, &full);
+        // flags that only shape the output never change whether something matched
+        {
+            const SEMANTIC: [&str; 7] = ["-v", "-w", "-U", "--crlf", "-a", "--files-without-match", "--include-zero"];
+            let plain_args: Vec<String> = sargs.iter().filter(|a| !a.starts_with('-') || SEMANTIC.contains(&a.as_str()) || matches!(a.as_str(), "--no-config" | "--color=never" | "-j1" | "--sort=path")).cloned().collect();
+            if plain_args.len() != sargs.len() && !sargs.iter().any(|a| a == "--files-without-match") {
+                let plain = ctx.run(&cwd, &RunSpec { args: plain_args.clone(), plan: vec!["noop=1".into()], ..RunSpec::default() }, 30);
+                acc.evals += 1;
+                digest = digest_out(digest, &plain);
+                if plain.code != full.code {
+                    acc.violation("C15", "output-shaping-flags-change-exit-status", format!("rg {:?} exits {}, rg {:?} exits {}", sargs, full.code, plain_args, plain.code), sub, replay_body(sub, &w, "epipe-swarm", &ref_spec, Some(&plain), &full, json!({"flags": sargs})));
+                }
+            }
+        }
         if full.code <= 1 && !full.stdout.is_empty() {
             let n = full.stdout.len();
             let mut ks: BTreeSet<usize> = [0, 1, n / 2, n - 1].into_iter().collect();
